@@ -41,11 +41,16 @@ pub struct Condvar { pub notifies: Cell<usize> }
 unsafe impl Sync for Condvar {}
 impl Condvar {
     pub fn new() -> Self { Condvar { notifies: Cell::new(0) } }
+    /// wakes ONE waiter: recorded separately — a monitor whose waiters wait for different conditions needs notify_all
+    pub fn notify_one(&self) {
+        unsafe { NOTIFY_ONE_COUNT += 1; }
+    }
     pub fn notify_all(&self) { self.notifies.set(self.notifies.get() + 1); unsafe { NOTIFY_COUNT += 1; } }
     pub fn wait<'a, T>(&self, _g: MutexGuard<'a, T>) -> LockResult<MutexGuard<'a, T>> { panic!("wait() would block: no other thread in a sequential harness") }
 }
 
 pub static mut NOTIFY_COUNT: usize = 0;
+pub static mut NOTIFY_ONE_COUNT: usize = 0;
 
 // ghost lock state of the whole harness (entry-level harnesses have exactly one RwLock in play)
 pub static mut G_READERS: isize = 0;
